@@ -46,10 +46,10 @@ def copy_master(master, dst):
 
 STORE_DIRS = {
     "stage-transfer": ["cache"], "index-save": ["cache"], "index-save-sparse": ["cache"], "store-to-store": ["dest"], "store-to-store-expanded": ["dest"], "upload-staging": ["cache"],
-    "push-remote": ["dest"], "push-expanded": ["dest"], "add-files": ["cache"], "store-to-store-index": ["dest"], "index-save-hardlink": ["cache"],
+    "push-remote": ["dest"], "push-expanded": ["dest"], "add-files": ["cache"], "store-to-store-index": ["dest"], "store-to-store-index-jobs": ["dest"], "store-to-store-index-wide": ["dest"], "index-save-hardlink": ["cache"],
 }
-NEEDS_SRC = {"store-to-store", "store-to-store-index", "store-to-store-expanded", "push-remote", "push-expanded"}
-HAS_STATE = {"store-to-store-index", "index-save-hardlink", "stage-transfer", "index-save", "index-save-sparse", "store-to-store", "store-to-store-expanded", "upload-staging", "add-files"}
+NEEDS_SRC = {"store-to-store", "store-to-store-index", "store-to-store-index-jobs", "store-to-store-index-wide", "store-to-store-expanded", "push-remote", "push-expanded"}
+HAS_STATE = {"store-to-store-index", "store-to-store-index-jobs", "store-to-store-index-wide", "index-save-hardlink", "stage-transfer", "index-save", "index-save-sparse", "store-to-store", "store-to-store-expanded", "upload-staging", "add-files"}
 
 
 def make_master(ctx, rng, scenario, d):
@@ -61,6 +61,11 @@ def make_master(ctx, rng, scenario, d):
     # keep scenarios small: the number of kill points grows with the number of files
     keys = sorted(files)[:7]
     files = {k: files[k] for k in keys}
+    if scenario.endswith("-wide"):
+        # more objects than any round / batch size a transfer may use
+        tag = rng.getrandbits(32)
+        for i in range(1003):
+            files[("wide", f"f{i:04d}")] = b"w %d %d" % (tag, i)
     if scenario in NEEDS_SRC:
         ws = os.path.join(d, "ws-tmp")
         src = env.local_odb(os.path.join(m, "src"))
@@ -186,6 +191,10 @@ def crash_rounds(ctx, scenario, rng, case, every, on_kill=None, check_rerun=True
     res.setmax(f"max/events/{scenario}", N)
     res.sample({"scenario": scenario, "files": desc["files"], "mutating_events": N, "first_events": events[:6], "every": every})
     kills = set(range(1, N + 1)) if every == 1 else (set(range(1, N + 1, every)) | interesting_kills(events))
+    if scenario.endswith("-wide"):
+        # thousands of events: the ones that write a directory object (and their neighbours), plus a spread of others
+        dir_events = {i for i, (_k, tgt, _s) in enumerate(events, 1) if tgt.endswith(DIR_SUFFIX)}
+        kills = {j for i in dir_events for j in (i - 1, i, i + 1, i + 2) if 1 <= j <= N} | set(range(1, N + 1, max(1, N // 10)))
     plan = [(n, partial) for n in sorted(kills) for partial in (False, True)]
     run_root = os.path.join(d, "run")
     for j, (n, partial) in enumerate(plan):
